@@ -77,6 +77,21 @@ fn check_gen(dseed: u64, counter: u8, n: u32, k: u32) -> Outcome {
     Outcome::pass(class, nontrivial, f)
 }
 
+/// accept both the original signature (-> Vec<Felt>) and the repaired one (-> Result<Vec<Felt>, _>)
+pub trait IntoVecResult {
+    fn into_res(self) -> Result<Vec<Felt>, String>;
+}
+impl IntoVecResult for Vec<Felt> {
+    fn into_res(self) -> Result<Vec<Felt>, String> {
+        Ok(self)
+    }
+}
+impl<E: std::fmt::Debug> IntoVecResult for Result<Vec<Felt>, E> {
+    fn into_res(self) -> Result<Vec<Felt>, String> {
+        self.map_err(|e| format!("{:?}", e))
+    }
+}
+
 fn check_points(k: u32, t: u32, idx: &[u64]) -> Outcome {
     let f = fp(&(k, t, idx));
     let t = t.min(k);
@@ -90,11 +105,12 @@ fn check_points(k: u32, t: u32, idx: &[u64]) -> Outcome {
     let w = root_of_unity(k);
     let r = guarded(false, || {
         let dom = StarkDomains::new(Felt::from(t as u64), Felt::from(c as u64));
-        queries_to_points(&qf, &dom)
+        queries_to_points(&qf, &dom).into_res()
     });
     match r {
         Err(p) => Outcome::failed(class, f, p.signature(), p.describe()),
-        Ok(pts) => {
+        Ok(Err(e)) => Outcome::failed(class, f, "c10:points_error", format!("queries_to_points failed on a domain of 2^{}: {}", k, e)),
+        Ok(Ok(pts)) => {
             if pts.len() != qs.len() {
                 return Outcome::failed(class, f, "c10:points_len", "one point per query expected");
             }
